@@ -114,6 +114,11 @@ FlagClauses(e) ==
                e.tracked /\ e.cls # "MacroNode" => e.n \in began>>,
              <<"C14.injected-completed-without-running-its-lines",      \* injected code runs once: all of it, unless a line of it failed
                e.cls = "InjectedNode" => (SetOfSeq(e.kids) \subseteq S \/ SetOfSeq(e.kids) \cap Fl # {})>>,
+             \* a Watch / Alarm run that completes has run its body: every line of it started in this invocation, unless a line
+             \* failed or was cancelled by the user, or the enclosing block was ended from inside the body
+             <<"C04.body-completed-without-running-its-lines@" \o e.site,
+               (e.cls \in CondCls /\ blocks \cap E = {}) =>
+                    (SetOfSeq(e.kids) \subseteq S \/ SetOfSeq(e.kids) \cap (Fl \cup X) # {})>>,
              <<"C02.trailing-whitespace-passed@" \o e.site, ~(e.ws /\ e.trail)>>,
              <<"C05.block-completes-only-after-end" \o e.suffix, Blind \/ (e.cls = "BlockNode" => e.n \in E)>>,
              <<"C05.end-block-ends-innermost" \o e.suffix,      \* the innermost locked block, and nothing else, is (or already was) ended
